@@ -267,7 +267,7 @@ T == Traces[tid]
 Pseq(t) == [i \in 1..Len(t.p) |-> [k |-> t.p[i].k, n |-> t.p[i].n, d |-> t.p[i].d]]
 Th(t) == IF t.form = "rat" THEN ToMicro(Theory(t.ex, Pseq(t))) ELSE t.theo
 RelTol(x) == (IF Abs2(x) > 1000 THEN Abs2(x) ELSE 1000) \div 1000 + 1
-Clauses == <<"value", "rate", "doc-formula", "equivalent-formulation">>
+Clauses == <<"value", "rate", "doc-formula", "own-pair", "equivalent-formulation">>
 Eval(t, c) ==
    CASE c = "value" -> IF t.status = "error" THEN {"no-value"} ELSE IF t.status = "unbounded" THEN {"no-finite-value"} ELSE {}
      [] c = "doc-formula" ->
@@ -279,6 +279,15 @@ Eval(t, c) ==
           IF t.flag = "tight" THEN (IF Abs2(t.pepit - th) <= tol THEN {} ELSE {"tight"})
           ELSE IF t.flag = "upper" THEN (IF t.pepit <= th + RelTol(th) + 10 + t.slack THEN {} ELSE {"upper-bound"})
           ELSE (IF t.pepit >= th - RelTol(th) - 10 - t.slack THEN {} ELSE {"lower-bound"})
+     \* the pair the example itself returns: its computed value against ITS OWN theoretical value, with the nature the
+     \* docstring claims (for the examples with a rational closed form this is a second, independent comparison: a
+     \* returned closed form that drifts away from the computation is seen even where the docstring agrees with it)
+     [] c = "own-pair" ->
+          IF t.form # "rat" \/ t.hastheo = 0 THEN {} ELSE
+          LET th == t.theo  tol == RelTol(th) + t.slack IN
+          IF t.flag = "tight" THEN (IF Abs2(t.pepit - th) <= tol THEN {} ELSE {"own-pair-tight"})
+          ELSE IF t.flag = "upper" THEN (IF t.pepit <= th + RelTol(th) + 10 + t.slack THEN {} ELSE {"own-pair-upper-bound"})
+          ELSE (IF t.pepit >= th - RelTol(th) - 10 - t.slack THEN {} ELSE {"own-pair-lower-bound"})
      [] c = "equivalent-formulation" ->
           {"equivalent-formulation:" \o t.variants[i].name : i \in {j \in 1..Len(t.variants) :
                  t.variants[j].status = "ok" /\ Abs2(t.variants[j].val - t.pepit) > RelTol(t.pepit) + t.slack}}
